@@ -1,0 +1,68 @@
+// Verification hooks for the malachite backend (only with --cfg strand_verif):
+// raw constructors/accessors and a parameter set read from a run-time registry.
+use super::*;
+
+pub fn natural_from_be(bytes: &[u8]) -> Natural {
+    let u16s = bytes.iter().map(|b| *b as u16);
+    Natural::from_digits_desc(&256u16, u16s).expect("impossible")
+}
+pub fn element_raw<P: MalachiteCtxParams>(value: Natural) -> NaturalE<P> {
+    NaturalE::new(value)
+}
+pub fn exponent_raw<P: MalachiteCtxParams>(value: Natural) -> NaturalX<P> {
+    NaturalX::new(value)
+}
+pub fn element_value<P: MalachiteCtxParams>(e: &NaturalE<P>) -> &Natural {
+    &e.0
+}
+pub fn exponent_value<P: MalachiteCtxParams>(x: &NaturalX<P>) -> &Natural {
+    &x.0
+}
+pub fn plaintext_raw(value: Natural) -> NaturalP {
+    NaturalP(value)
+}
+pub fn plaintext_value(p: &NaturalP) -> &Natural {
+    &p.0
+}
+pub fn hash_to_element<P: MalachiteCtxParams>(
+    ctx: &MalachiteCtx<P>,
+    bytes: &[u8],
+) -> Natural {
+    ctx.hash_to_element(bytes)
+}
+
+/// Parameter set taken from `verif_hooks::PVERIF` at construction time.
+#[derive(Eq, PartialEq, Clone, Debug)]
+pub struct PVerif {
+    generator: NaturalE<Self>,
+    modulus: NaturalE<Self>,
+    exp_modulus: NaturalX<Self>,
+    co_factor: Natural,
+}
+impl MalachiteCtxParams for PVerif {
+    fn generator(&self) -> &NaturalE<Self> {
+        &self.generator
+    }
+    fn modulus(&self) -> &NaturalE<Self> {
+        &self.modulus
+    }
+    fn exp_modulus(&self) -> &NaturalX<Self> {
+        &self.exp_modulus
+    }
+    fn co_factor(&self) -> &Natural {
+        &self.co_factor
+    }
+    fn new() -> PVerif {
+        let (p, q, g, c) = crate::verif_hooks::get_pverif();
+        PVerif {
+            generator: NaturalE::new(
+                Natural::from_string_base(10, &g).unwrap(),
+            ),
+            modulus: NaturalE::new(Natural::from_string_base(10, &p).unwrap()),
+            exp_modulus: NaturalX::new(
+                Natural::from_string_base(10, &q).unwrap(),
+            ),
+            co_factor: Natural::from_string_base(10, &c).unwrap(),
+        }
+    }
+}
